@@ -241,9 +241,68 @@ def ab_history(draw, max_steps):
     return case
 
 
+_LB_PRIM = st.sampled_from([["prim", "int64"], ["prim", "float64"], ["prim", "bool"]])
+_LB_LEAF0 = st.one_of(_LB_PRIM, _LB_PRIM, st.just(["string"]), st.just(["bytes"]))
+
+
+@st.composite
+def lb_simple_type(draw):
+    """Forms of the shapes tests/test_0924-layout-builder.py exercises (see lb_simple)"""
+    k = draw(st.integers(0, 11))
+    if k < 2:
+        return draw(_LB_LEAF0)
+    if k < 6:
+        t = draw(_LB_LEAF0)
+        for _ in range(draw(st.integers(1, 3))):
+            t = ["list", t]
+        return t
+    if k < 7:
+        return ["option", draw(_LB_LEAF0)]
+    if k < 8:
+        return ["regular", draw(_LB_PRIM), draw(st.integers(1, 3))]
+    if k < 10:
+        n = draw(st.integers(1, 3))
+        if draw(st.booleans()):
+            return ["record", [[str(i), draw(_LB_PRIM)] for i in range(n)], True, draw(st.sampled_from([None, None, "Vec"]))]
+        keys = draw(st.permutations(KEYS))[:n]
+        return ["record", [[key, draw(_LB_PRIM)] for key in keys], False, draw(st.sampled_from([None, None, "Point"]))]
+    prims = draw(st.permutations([["prim", "int64"], ["prim", "float64"], ["prim", "bool"]]))
+    return ["union", list(prims[:draw(st.integers(2, 3))])]
+
+
+def _lb_leaf0(T):
+    return T[0] in ("string", "bytes") or (T[0] == "prim" and T[1] in ("int64", "float64", "bool"))
+
+
+def lb_simple(T):
+    """the Forms on which everything the property says is demanded of LayoutBuilder without exception: leaves, lists of
+    lists of ... leaves, one option over a leaf, a regular array of numbers, records/tuples of numbers, unions of numbers
+    (leaf = bool/int64/float64/string/bytestring).  Other compositions are the region of the known finding
+    layoutbuilder_composite_forms."""
+    k = T[0]
+    if _lb_leaf0(T):
+        return True
+    if k == "list":
+        while T[0] == "list":
+            T = T[1]
+        return _lb_leaf0(T)
+    if k == "option":
+        return _lb_leaf0(T[1])
+    if k == "regular":
+        return T[1][0] == "prim" and _lb_leaf0(T[1])
+    if k == "record":
+        return len(T[1]) > 0 and all(t[0] == "prim" and _lb_leaf0(t) for _, t in T[1])
+    if k == "union":
+        return all(t[0] == "prim" and _lb_leaf0(t) for t in T[1])
+    return False
+
+
 @st.composite
 def lb_case(draw):
-    T = _no_zero_regular(draw(gen.types(LB_CFG)))
+    if draw(st.integers(0, 9)) < 7:
+        T = draw(lb_simple_type())
+    else:
+        T = _no_zero_regular(draw(gen.types(LB_CFG)))
     vals = draw(gen.values(T, LB_CFG))
     return {"kind": "lb", "T": T, "values": _lb_encode(vals),
             "initial": draw(st.sampled_from([16, 16, 17, 64, 1024])), "resize": draw(st.sampled_from([1.1, 1.5, 2.0]))}
@@ -359,6 +418,13 @@ def _apply(b, cmd, layouts, fast):
     return None
 
 
+def _try_describe(layout):
+    try:
+        return D.describe(layout)
+    except Exception as e:      # only used to illustrate a snapshot the library itself calls invalid
+        return "not describable: %s" % (str(e)[:200],)
+
+
 def _frame(model):
     fr = model.top()
     if fr.kind in ("tuple", "record"):
@@ -397,7 +463,8 @@ def run_case(case):
     values_after_snapshot = False
     # by-reference arrays with floating-point leaves merge with the builder's own numbers at the same position
     # ("integers become floats when mixed with floats"): numbers are then compared numerically
-    byref_float = any('"float' in canon(case["arrays"][c[1]]) or '"complex' in canon(case["arrays"][c[1]])
+    # and a by-reference array of union type takes the builder's own numbers in as they are (UnionArray merges anything)
+    byref_float = any('"float' in canon(case["arrays"][c[1]]) or '"complex' in canon(case["arrays"][c[1]]) or '"UnionArray' in canon(case["arrays"][c[1]])
                       for c in case["steps"] if c[0] in ("append", "extend"))
     steps = list(case["steps"]) + [["snapshot"]]     # every history ends with a checked snapshot
     nvalues = 0
@@ -438,15 +505,17 @@ def run_case(case):
             except (ValueError, RuntimeError, C.OtherNativeError) as e:
                 raise Violation("snapshot_refused:" + region(), "snapshot after step %d raised %s: %s" % (i, type(e).__name__, str(e)[:300]),
                                 expected="a snapshot", observed=str(e)[:300])
+            # the library's own validity check first: an invalid array may not even be describable
+            for snap in (sa, sb_):
+                err = snap.validityerror()
+                if err is not None:
+                    raise Violation("invalid_snapshot:" + region(), "snapshot after step %d is not a valid array: %s" % (i, err[:300]),
+                                    observed=_try_describe(snap), clause="C11 closure")
             da, db = D.describe(sa), D.describe(sb_)
             ca, cb = canon(da), canon(db)
             if ca != cb:
                 raise Violation("determinism:snapshot|" + region(), "two builders fed the same %d commands give different snapshots" % i,
                                 expected=da, observed=db, clause="equal builder states give equal snapshots")
-            err = sa.validityerror()
-            if err is not None:
-                raise Violation("invalid_snapshot:" + region(), "snapshot after step %d is not a valid array: %s" % (i, err[:300]), observed=da,
-                                clause="C11 closure")
             T, exp, ftags = model.expected()
             feats |= ftags
             Tobs, obs = M.decode(da)
@@ -564,10 +633,10 @@ def run_lb(case):
         if not vals:
             return {"tags": ["lb", "lb:empty_snapshot_refused"], "nontrivial": False}
         raise Violation("lb_snapshot_refused|" + _lb_shape(T), "snapshot raised %s: %s" % (type(e).__name__, str(e)[:300]), observed=str(e)[:300])
-    d = D.describe(snap)
     err = snap.validityerror()
     if err is not None:
-        raise Violation("lb_invalid_snapshot|" + _lb_shape(T), "LayoutBuilder snapshot is invalid: " + err[:300], observed=d)
+        raise Violation("lb_invalid_snapshot|" + _lb_shape(T), "LayoutBuilder snapshot is invalid: " + err[:300], observed=_try_describe(snap))
+    d = D.describe(snap)
     Tobs, obs = M.decode(d)
     if not M.same_value(vals, obs):
         raise Violation("lb_value|" + _lb_shape(T), "LayoutBuilder snapshot differs from the data it was given", expected=M.jsonable(vals), observed=M.jsonable(obs))
@@ -603,6 +672,8 @@ def regions(case):
                 out.add("region:negative_tuple_index")
         if op in ("beginrecord", "begintuple"):
             seen_struct = True
+        if op == "endrecord" and model.state == "ok" and model.top().kind == "record" and not model.top().fills:
+            out.add("region:empty_record")
         if op == "clear" and seen_struct:
             out.add("region:struct_then_clear")
         model.step(cmd)
@@ -615,6 +686,18 @@ def regions(case):
         if d["class"] in ("ByteMaskedArray", "BitMaskedArray", "UnmaskedArray"):
             out.add("region:masked_byref")
     return out
+
+
+def pre_exclude(case):
+    """histories that die in a finding recorded by another property (counted as excluded_by_finding)"""
+    if case.get("kind") != "ab" or not case["arrays"]:
+        return None
+    used = set(c[1] for c in case["steps"] if c[0] in ("append", "extend"))
+    if any('"UnionArray' in canon(case["arrays"][k]) for k in used) and "region:empty_record" in regions(case):
+        # a record without fields ({}) beside a by-reference array of union type: the snapshot's simplify_uniontype merges
+        # the zero-field RecordArray, which loses its length (known finding zero_field_records of C02) -> heap overflow
+        return "zero_field_records"
+    return None
 
 
 ANY = ("crash:", "hang:", "value:", "determinism:", "snapshot_refused", "invalid_snapshot", "mutated_snapshot", "refused:", "accepted:", "length:", "wrong_error:")
@@ -636,7 +719,26 @@ def _tuple_index_negative(case, vio):
     return vio["bucket"].startswith(("accepted:index|tuple", "crash:")) and "region:negative_tuple_index" in regions(case)
 
 
+def _lb_has_complex(T):
+    return '"complex128"' in canon(T)
+
+
+def _lb_complex(case, vio):
+    return (case.get("kind") == "lb" and _lb_has_complex(case["T"]) and vio["bucket"].startswith("lb_form_refused")
+            and "output dtype not recognized" in (vio.get("message") or ""))
+
+
+def _lb_composite(case, vio):
+    return (case.get("kind") == "lb" and not _lb_has_complex(case["T"]) and not lb_simple(case["T"])
+            and vio["bucket"].startswith(("lb_", "crash:lb", "hang:lb")))
+
+
 KNOWN = {
+    # LayoutBuilder: a Form with a complex128 leaf is accepted by the Form parser but its AwkwardForth program declares
+    # "output ... complex128", a dtype ForthMachine does not know: the constructor raises
+    "layoutbuilder_complex128": _lb_complex,
+    # LayoutBuilder on Forms that nest list/option/regular/record/union nodes in other than the simplest ways (see lb_simple)
+    "layoutbuilder_composite_forms": _lb_composite,
     # string and bytestring appended at one position: StringBuilder::string ignores `encoding`
     "builder_string_bytestring_absorbed": _known("region:str+bytes", ("value:bytes/str", "value:str/bytes")),
     # clear() after a record or tuple was begun: RecordBuilder/TupleBuilder::clear go back to "never begun" (length -1)
